@@ -85,6 +85,24 @@ func genC07(t *rapid.T) c07Case {
 			Phase:  rapid.SampledFrom([]int{0, 0, 0, 0, 1, 2, 2}).Draw(t, "phase"),
 		})
 	}
+	// motif: one sender talks to one query several times in a row, acks and
+	// responses alternating (what a relayed duplicate of each looks like on the
+	// wire); per-sender bookkeeping of the two kinds must not disturb each other
+	if rapid.IntRange(0, 2).Draw(t, "motif?") == 0 {
+		tq := rapid.IntRange(0, nq-1).Draw(t, "motif-target")
+		from := rapid.IntRange(0, 5).Draw(t, "motif-from")
+		if rapid.IntRange(0, 3).Draw(t, "motif-ackq") > 0 {
+			c.Queries[tq].Ack = true
+		}
+		pattern := rapid.SampledFrom([][]bool{{true, false, true}, {false, true, false}, {true, true, false, false, true}, {false, false, true, false}, {true, false, false, true}}).Draw(t, "motif-pattern")
+		var motif []c07Reply
+		for _, isAck := range pattern {
+			motif = append(motif, c07Reply{Target: tq, Ack: isAck, From: from, Relay: rapid.IntRange(0, 3).Draw(t, "motif-relay") == 0, Copies: 1})
+		}
+		at := rapid.IntRange(0, len(c.Replies)).Draw(t, "motif-at")
+		c.Replies = append(c.Replies[:at:at], append(motif, c.Replies[at:]...)...)
+		nr = len(c.Replies)
+	}
 	if rapid.IntRange(0, 2).Draw(t, "slow-sink?") == 0 {
 		c.SlowSinkUs = rapid.SampledFrom([]int{100, 300}).Draw(t, "slow-sink")
 		// such a case gets a burst for sure
